@@ -37,13 +37,13 @@ theorem sysRun_proj (F : Facts12) (O : Nat → Fail) (sched : List Nat) : ∀ s 
       · simp [hk, List.filter, rrun]
 
 theorem good_safe (F : Facts12) (hG : F.Good) (op : ROp) (h : op.isPark = false) : op.Safe F.rfacts := by
-  obtain ⟨_, _, h1, h2, h3, h4, h5, _, h7⟩ := hG
+  obtain ⟨_, _, h1, h2, h3, h4, h5, _, h7, h8, h9⟩ := hG
   have hctx : ∀ c, F.rfacts.ctxShared c = false := by intro c; simp [Facts12.rfacts, h7]
   cases op with
   | probe k => trivial
   | publish k =>
     simp only [ROp.Safe, published, Facts12.rfacts]
-    cases k.c <;> simp [h1, h2, h3, h4]
+    cases k.c <;> simp [h1, h2, h3, h4, h8, h9]
   | complete k => trivial
   | validate => trivial
   | readErr => exact h5
